@@ -1,5 +1,6 @@
 """Paths, interpreter and environment shared by every check (DESIGN.md section 4)."""
 import os
+import signal
 import subprocess
 import sys
 import time
@@ -57,13 +58,19 @@ def run_driver(module: str, args=(), extra_env=None, timeout=1800):
     from /repo's current working tree.  Returns (stdout, wall seconds)."""
     cmd = [PYTHON, "-m", "harness.drivers." + module, *map(str, args)]
     t0 = time.time()
+    # own process group: on a time-out the driver and whatever worker processes it started are killed together
+    proc = subprocess.Popen(cmd, cwd=VERIF, env=driver_env(extra_env), stdout=subprocess.PIPE, stderr=subprocess.PIPE, text=True,
+                            start_new_session=True)
     try:
-        p = subprocess.run(
-            cmd, cwd=VERIF, env=driver_env(extra_env), stdout=subprocess.PIPE, stderr=subprocess.PIPE,
-            text=True, timeout=timeout,
-        )
+        so, se = proc.communicate(timeout=timeout)
     except subprocess.TimeoutExpired:
+        try:
+            os.killpg(proc.pid, signal.SIGKILL)
+        except OSError:
+            pass
+        proc.communicate()
         raise DriverHang(module, timeout)
+    p = subprocess.CompletedProcess(cmd, proc.returncode, so, se)
     if p.returncode != 0:
         sys.stderr.write(p.stdout[-4000:])
         sys.stderr.write(p.stderr[-8000:])
